@@ -179,9 +179,9 @@ def run_property(prop, tier, seed, only=None, verbose=False):
             t = rep.target
             if isinstance(t, Target):
                 verdict, detail = verify.replay_obligation(t, ob)
-            elif hasattr(t, 'replay') and ob.model is not None:
+            elif hasattr(t, 'replay'):
                 try:
-                    verdict, detail = t.replay(ob.model)
+                    verdict, detail = t.replay(ob.model or {})
                 except Exception as err:
                     verdict, detail = 'no-replay', {"reason": "lemma replay failed: %s: %s" % (type(err).__name__, err)}
             else:
